@@ -459,6 +459,8 @@ structure AInd (φ α : Type) where
   cv : List Bool
   y : List α
   z : List α
+  /-- `hasattr(individual.fitness, "constraint_violation")` (false for a plain `Fitness`) -/
+  hasCv : Bool := true
 
 structure State (φ α : Type) where
   dim : Nat
@@ -636,6 +638,7 @@ matrices alone there (callers mark an individual invalid only when a constraint 
 in `tests/test_convergence.py`; the theorems do not depend on this case). -/
 def infeasibleUpdate {φ : Type} (inv : List (List α) → Option (List (List α)))
     (s : State φ α) (ind : AInd φ α) : State φ α :=
+  if ind.hasCv = false then s else                                            -- :802-803
   let vecs := constraintVecsUpdate s ind
   match aPrime s.prm.beta s.A s.invA vecs ind.cv with
   | none => { s with constraintVecs := some vecs }
